@@ -189,6 +189,7 @@ mutual
   theorem constDyn_shape : ∀ c d : ConstDyn, remapConstDyn r c = some d → eraseConstDyn d = eraseConstDyn c
     | .mk n ds hd args, d, h => by
       simp only [remapConstDyn] at h
+      osplit h with ds' hds
       osplit h with hd' hhd
       osplit h with args' hargs
       simp at h; subst h
@@ -251,6 +252,7 @@ theorem insn_shape (i j : Insn) (h : remapInsn r i = some j) : eraseInsn j = era
     subst h; rfl
   | indy n d hd args =>
     simp only [remapInsn] at h
+    osplit h with d' hd0
     osplit h with hd' hhd
     osplit h with args' hargs
     simp at h; subst h
